@@ -1,15 +1,16 @@
 """C02 - see properties.jsonl; DESIGN.md section 5."""
 from ._generic import run_property
 
-EXPLANATION = 'Bounded stand-in: every file a write produces is decoded by an independent specification-level reader (spec/pqread.py, IDL-driven strict Thrift decode) and checked structurally (offsets, sizes, counts, page tiling, encodings, codec) and for value equality incl. NULL vs NaN.'
+EXPLANATION = 'Mixed. P: writer.write_simple.write_to_file is executed symbolically from its real source on the byte-file model (make_row_group by contract: writes only at/after the current position): a fresh file is PAR1 ++ row groups ++ footer ++ le32(len returned by f.write) ++ PAR1, footer metadata updated before serialisation. B (labelled bounded): every file a write produces is decoded by an independent specification-level reader (spec/pqread.py, IDL-driven strict Thrift decode) and checked structurally (offsets, sizes, counts, page tiling, encodings, codec) and for value equality incl. NULL vs NaN.'
 
 
 def p_parts():
-    return []
+    from ._append import p_append
+    return [p_append]
 
 
 def run(ctx):
-    return run_property(ctx, 'exploration', EXPLANATION, p_parts=p_parts(), b_modules=['c02_independent_reader'],
+    return run_property(ctx, 'other', EXPLANATION, p_parts=p_parts(), b_modules=['c02_independent_reader'],
                         assumptions=["pandas / numpy / cramjam behaviour inside every opaque value",
                                      "the oracle (plain pandas / the spec library under /verif/spec) is a faithful reading of the property"],
                         trusted=["bounded layer: enumerated inputs only; nothing outside the stated bound is covered"])
